@@ -67,6 +67,10 @@ type awkward struct {
 	Make func() any
 }
 
+// flipLen: successive Make() calls of the "alternating" entries give slices of the SAME capacity and
+// DIFFERENT length (receiver and twin, or two stored instances, then differ in length only).
+var flipLen int
+
 var awkwardCatalogue = []awkward{
 	{"untyped-nil", func() any { return nil }},
 	{"nil-*int", func() any { return (*int)(nil) }},
@@ -161,6 +165,8 @@ var awkwardCatalogue = []awkward{
 	{"min-int64", func() any { return int64(math.MinInt64) }},
 	{"one-member-any-slice", func() any { return []any{"only"} }},
 	{"nested-one-member-any-slice", func() any { return []any{[]any{"only"}} }},
+	{"slice-cap4-len-alternating", func() any { flipLen++; return make([]int, 2+flipLen%2, 4) }},
+	{"byte-slice-cap8-len-alternating", func() any { flipLen++; return make([]byte, 1+flipLen%2, 8) }},
 	{"plain-string", func() any { return "plain" }},
 	{"plain-int", func() any { return 3 }},
 	// values that are meaningful to setters taking `any` (loggers, log levels, delimiters, symbols, encapsulation)
